@@ -166,7 +166,7 @@ Definition sconn_step (_ : unit) (q : greq) : unit * list (greq * Z * list Z) :=
   match app_behaviour {| m_typ := 0; m_code := q_code q; m_mid := 0; m_tok := q_tok q;
                          m_opts := map (fun seg => (uri_path_id, seg)) (path_of_tag routes (q_route q)); m_pay := q_pay q |} with
   | BResp code _ pay => (tt, [(q, code, pay)])
-  | BNone => (tt, [])
+  | _ => (tt, [])
   end.
 Definition reaches_listener (k : ckind) : bool := match k with CkFiltered => false | _ => true end.
 (* the goroutine events of connection i.  A failed handshake of the DTLS server is reported only when its
